@@ -1,4 +1,4 @@
-import LoguruModel.Context.Lemmas
+import LoguruModel.Context.Scope
 /-
 C12 – property theorems (only the theorems and their non-vacuity examples live here).
 The operand orders (`Gen.recordLayers`, `Gen.bindOperands`, `Gen.ctxOperands`, `Gen.patchOperands`),
@@ -70,5 +70,204 @@ theorem patch_order_once (papply : P → Assoc K V → Assoc K V) (s : State K V
 theorem no_handler_no_patch (papply : P → Assoc K V → Assoc K V) (s : State K V P) (c l : Nat)
     (kw : Assoc K V) (hh : s.handlers = []) : step papply s c (.log l kw) = s := by
   simp only [step]; split <;> simp [hh]
+
+/-! ### contextualize: scoping, restoration, isolation -/
+
+/-- every state reachable from the initial one by ANY trace (any programme of any number of
+contexts, in any interleaving) satisfies the invariant: all open blocks hold valid tokens and the
+variable's value in every context is the one its open blocks determine -/
+theorem reachable_inv (papply : P → Assoc K V → Assoc K V) (t : List (Nat × Op K V P)) :
+    Inv (run papply (init : State K V P) t) :=
+  inv_run papply _ t inv_init
+
+/-- `contextualize_scoped`: after any trace, key by key, the context layer seen in context `c` is
+given by the blocks of `c` that are entered and not yet left – the innermost one that names the key
+wins – and, below them, by the value `c` started with (`spawn_inherits`: a copy of the creator's
+value at creation time for a task, nothing for a thread). -/
+theorem contextualize_scoped (papply : P → Assoc K V → Assoc K V) (t : List (Nat × Op K V P))
+    (c : Nat) (k : K) :
+    let s := run papply (init : State K V P) t
+    get? (ctxGet s c) k =
+      orElse (firstSome ((s.stacks c).map (fun f => get? f.kw k))) (get? ((s.bases c).getD []) k) := by
+  intro s
+  have hI : Inv s := reachable_inv papply t
+  show get? ((ContextVars.get s.cv c).getD []) k = _
+  unfold ContextVars.get
+  rw [hI.value c, stackValue_lookup]
+
+/-- the stack of open blocks of `c` is exactly: its `enter`s, minus what `exit`/`raise` popped
+(LIFO), untouched by anything any other context does -/
+theorem open_blocks_tracked (papply : P → Assoc K V → Assoc K V) (s : State K V P) (c c' : Nat)
+    (op : Op K V P) (hc : c < s.cv.n) :
+    (c' ≠ c → (step papply s c' op).stacks c = s.stacks c) ∧
+    (c' = c → match op with
+      | .enter kw => ∃ f, f.kw = kw ∧ (step papply s c op).stacks c = f :: s.stacks c
+      | .exit => (step papply s c op).stacks c = (s.stacks c).tail
+      | .raise k => (step papply s c op).stacks c = (s.stacks c).drop k
+      | _ => (step papply s c op).stacks c = s.stacks c) := by
+  refine ⟨fun h => (step_other papply s c c' op (Ne.symm h) hc).2, fun _ => step_self_stack papply s c op hc⟩
+
+/-- `restored_on_exit`: whatever context `c` does between two points of a trace, as long as it
+leaves – normally (`exit`) or through an exception (`raise k`) – exactly the blocks it entered in
+between (`Balanced`), and whatever ALL other contexts do meanwhile, `c` gets back the very value and
+the very open blocks it had. -/
+theorem restored_on_exit (papply : P → Assoc K V → Assoc K V) (s : State K V P) (c : Nat)
+    (t : List (Nat × Op K V P)) (hI : Inv s) (hc : c < s.cv.n) (hb : Balanced c 0 t) :
+    (run papply s t).stacks c = s.stacks c ∧ ctxGet (run papply s t) c = ctxGet s c := by
+  have hs := balanced_stack papply c t s 0 [] (s.stacks c) hc rfl rfl hb
+  refine ⟨hs, ?_⟩
+  have hI' := inv_run papply s t hI
+  unfold ctxGet ContextVars.get
+  rw [hI'.value c, hI.value c, hs, (run_n_bases papply t s).2 c hc]
+
+/-- a `with` block left normally or by an exception is balanced when its body is -/
+theorem block_balanced (c : Nat) (kw : Assoc K V) (body : List (Nat × Op K V P))
+    (hb : Balanced c 0 body) :
+    Balanced c 0 ((c, Op.enter kw) :: (body ++ [(c, Op.exit)])) ∧
+    Balanced c 0 ((c, Op.enter kw) :: (body ++ [(c, Op.raise 1)])) := by
+  have h1 : Balanced (K := K) (V := V) (P := P) c 1 [(c, Op.exit)] := by simp [Balanced]
+  have h2 : Balanced (K := K) (V := V) (P := P) c 1 [(c, Op.raise 1)] := by simp [Balanced]
+  constructor
+  · simp only [Balanced, if_true]; simpa using balanced_append c body _ 0 1 hb h1
+  · simp only [Balanced, if_true]; simpa using balanced_append c body _ 0 1 hb h2
+
+/-- an exception propagating out of `k` blocks is `k` times `finally: context.reset(token)` -/
+theorem raise_eq_exits (papply : P → Assoc K V → Assoc K V) (s : State K V P) (c k : Nat) :
+    step papply s c (.raise k) = run papply s (List.replicate k (c, Op.exit)) := by
+  simp only [step]
+  induction k generalizing s with
+  | zero => rfl
+  | succ k ih => simp only [exitN, List.replicate_succ, run, step]; exact ih _
+
+/-- `exit_never_raises`: in no reachable state does `context.reset(token)` fail (token of another
+context, token used twice): no trace ever produces an error event. -/
+theorem exit_never_raises (papply : P → Assoc K V → Assoc K V) (t : List (Nat × Op K V P)) :
+    ∀ e ∈ (run papply (init : State K V P) t).out, e.isError = false := by
+  have gen : ∀ (t : List (Nat × Op K V P)) (s : State K V P), Inv s → (∀ e ∈ s.out, e.isError = false) →
+      ∀ e ∈ (run papply s t).out, e.isError = false := by
+    intro t
+    induction t with
+    | nil => intro s _ hE; exact hE
+    | cons e t ih =>
+      intro s hI hE
+      exact ih _ (inv_step papply s e.1 e.2 hI) (step_no_error papply s e.1 e.2 hI hE)
+  exact gen t _ inv_init (by intro e he; cases he)
+
+/-- `isolation`: a trace in which context `c` executes nothing – whatever the other contexts do:
+enter, leave, raise, spawn, configure, log – leaves `c`'s context layer, its open blocks and its
+inherited base unchanged. -/
+theorem isolation (papply : P → Assoc K V → Assoc K V) (t : List (Nat × Op K V P)) :
+    ∀ (s : State K V P) (c : Nat), c < s.cv.n → (∀ e ∈ t, e.1 ≠ c) →
+      ctxGet (run papply s t) c = ctxGet s c ∧ (run papply s t).stacks c = s.stacks c ∧
+      (run papply s t).bases c = s.bases c := by
+  induction t with
+  | nil => intro s c _ _; exact ⟨rfl, rfl, rfl⟩
+  | cons e t ih =>
+    intro s c hc hne
+    have h1 : e.1 ≠ c := hne e List.mem_cons_self
+    obtain ⟨hv, hs⟩ := step_other papply s c e.1 e.2 (Ne.symm h1) hc
+    obtain ⟨hn, hb⟩ := step_n_bases papply s e.1 e.2
+    obtain ⟨a, b, d⟩ := ih (step papply s e.1 e.2) c (by omega) (fun e' he' => hne e' (List.mem_cons_of_mem _ he'))
+    simp only [run]
+    refine ⟨?_, by rw [b, hs], by rw [d, hb c hc]⟩
+    rw [a]; unfold ctxGet ContextVars.get; rw [hv]
+
+/-- `spawn_inherits`: a task (`copy`) starts with its creator's current context layer, a thread with
+none; both start with no open block; the creator is unaffected. -/
+theorem spawn_inherits (papply : P → Assoc K V → Assoc K V) (s : State K V P) (c : Nat) (copy : Bool) :
+    let s' := step papply s c (.spawn copy)
+    s'.cv.n = s.cv.n + 1 ∧ s'.stacks s.cv.n = [] ∧
+    ctxGet s' s.cv.n = (if copy then ctxGet s c else []) ∧
+    s'.bases s.cv.n = (if copy then s.cv.vals c else none) ∧
+    (c < s.cv.n → ctxGet s' c = ctxGet s c) := by
+  refine ⟨?_, ?_, ?_, ?_, ?_⟩
+  · simp [step, ContextVars.spawn]
+  · simp [step, ContextVars.spawn]
+  · cases copy <;> simp [step, ContextVars.spawn, ctxGet, ContextVars.get]
+  · simp [step, ContextVars.spawn, ContextVars.get]
+  · intro hc
+    have : c ≠ s.cv.n := by omega
+    simp [step, ContextVars.spawn, ctxGet, ContextVars.get, this]
+
+/-- end to end: after ANY trace from the initial state, a logging call in context `c` through a
+logger without patchers (and no configured patcher) hands every handler a record whose extra is, key
+by key: kwargs (if captured) ▷ bind ▷ innermost open block of `c` naming the key ▷ … ▷ what `c`
+inherited when it was created ▷ configure(extra). -/
+theorem record_extra_end_to_end (papply : P → Assoc K V → Assoc K V) (t : List (Nat × Op K V P))
+    (c l : Nat) (o : Opts K V P) (kw : Assoc K V) :
+    let s := run papply (init : State K V P) t
+    s.loggers[l]? = some o → o.patchers = [] → s.corePatcher = none → s.handlers ≠ [] →
+    ∃ x, (step papply s c (.log l kw)).out = s.out ++ s.handlers.map (fun h => Event.delivered c h x) ∧
+      ∀ k, get? x k =
+        orElse (if o.flags.capture then get? kw k else none)
+          (orElse (get? o.extra k)
+            (orElse (orElse (firstSome ((s.stacks c).map (fun f => get? f.kw k)))
+                      (get? ((s.bases c).getD []) k))
+              (get? s.coreExtra k))) := by
+  intro s hl hp hcp hh
+  refine ⟨buildExtra s.coreExtra (ctxGet s c) o.extra kw o.flags.capture, ?_, ?_⟩
+  · have : s.handlers.isEmpty = false := by cases h : s.handlers <;> simp_all
+    simp [step, hl, this, log_extra_layering, hp, hcp, runPatchers, applyAll]
+  · intro k
+    rw [extra_layering, contextualize_scoped papply t c k]
+
+/-! ### derived loggers -/
+
+/-- `derived_loggers_fresh`: no trace changes a logger that exists (bind/opt/patch only append a
+new one) nor an event already emitted (a delivered record). -/
+theorem derived_loggers_fresh (papply : P → Assoc K V → Assoc K V) (s : State K V P)
+    (t : List (Nat × Op K V P)) :
+    (∀ i, i < s.loggers.length → (run papply s t).loggers[i]? = s.loggers[i]?) ∧
+    (∀ i, i < s.out.length → (run papply s t).out[i]? = s.out[i]?) := by
+  obtain ⟨⟨l, hl⟩, ⟨o, ho⟩⟩ := run_grows papply t s
+  constructor
+  · intro i hi; rw [hl, List.getElem?_append_left hi]
+  · intro i hi; rw [ho, List.getElem?_append_left hi]
+
+/-- what the new logger of `bind` / `patch` / `opt` is: the receiver with, respectively, its extra
+overridden key by key by the kwargs, the patcher appended LAST, all seven flags replaced (patchers
+and extra kept). -/
+theorem derived_logger_spec (papply : P → Assoc K V → Assoc K V) (s : State K V P) (c l : Nat)
+    (o : Opts K V P) (hl : s.loggers[l]? = some o) :
+    (∀ kw, ∃ x, (step papply s c (.bind l kw)).loggers = s.loggers ++ [{ o with extra := x }] ∧
+        ∀ k, get? x k = orElse (get? kw k) (get? o.extra k)) ∧
+    (∀ p, (step papply s c (.patch l p)).loggers = s.loggers ++ [{ o with patchers := o.patchers ++ [p] }]) ∧
+    (∀ f, (step papply s c (.opt l f)).loggers = s.loggers ++ [{ o with flags := f }]) := by
+  refine ⟨fun kw => ⟨bindExtra o.extra kw, by simp [step, hl], ?_⟩, fun p => ?_, fun f => by simp [step, hl]⟩
+  · intro k
+    simp [bindExtra, Gen.bindOperands, List.foldl, srcVal, get?_merge]
+  · simp [step, hl, patchList, Gen.patchOperands, List.foldl]
+
+/-- the root logger has `opt()`'s defaults, no patcher, no bound extra; and by default kwargs are
+captured -/
+theorem root_logger : (init : State K V P).loggers = [{ flags := Gen.optDefaults, patchers := [], extra := [] }] ∧
+    Gen.optDefaults.capture = true := ⟨rfl, rfl⟩
+
+/-- `configure(extra=e)` REPLACES the core layer, `configure(patcher=p)` the core patcher; `None`
+leaves them as they are -/
+theorem configure_spec (papply : P → Assoc K V → Assoc K V) (s : State K V P) (c : Nat)
+    (e : Option (Assoc K V)) (p : Option P) :
+    let s' := step papply s c (.configure e p)
+    s'.coreExtra = (match e with | some x => x | none => s.coreExtra) ∧
+    s'.corePatcher = (match p with | some q => some q | none => s.corePatcher) ∧
+    s'.loggers = s.loggers ∧ s'.cv = s.cv ∧ s'.out = s.out := by
+  cases e <;> cases p <;> simp [step, merge_nil_left]
+
+/-! ### non-vacuity -/
+
+/-- a trace with two contexts, overlapping keys, a block left by an exception while another
+context has a block open; the invariant's hypotheses are met and the final layers are as expected -/
+example :
+    let t : List (Nat × Op Nat Nat Nat) :=
+      [(0, .addHandler), (0, .configure (some [(1, 10), (2, 20)]) none), (0, .enter [(1, 11)]),
+       (0, .spawn true), (1, .enter [(2, 22)]), (0, .raise 1), (0, .bind 0 [(3, 33)]),
+       (1, .log 1 [(3, 34)]), (1, .exit), (1, .log 0 []), (0, .log 0 [])]
+    (run (fun _ x => x) (init : State Nat Nat Nat) t).out =
+      [.delivered 1 0 [(1, 11), (2, 22), (3, 34)], .delivered 1 0 [(1, 11), (2, 20)],
+       .delivered 0 0 [(1, 10), (2, 20)]] := by rfl
+
+example : Balanced (K := Nat) (V := Nat) (P := Nat) 0 0
+    [(0, .enter [(1, 1)]), (1, .enter [(1, 2)]), (0, .enter [(2, 2)]), (0, .raise 2), (1, .exit)] := by
+  simp [Balanced]
 
 end C12
